@@ -1,6 +1,6 @@
 (* C02 — kept spans are forwarded exactly once, dropped spans never, none lost.
    Statements only; proofs in Proofs/CollectorAbs.v, Proofs/CollectorRef.v, Proofs/CollectorTime.v. *)
-From Refinery Require Import Lib.Base Model.Collector Proofs.CollectorAbs Proofs.CollectorRef Proofs.CollectorTime Proofs.CollectorLive Gen.GenC01.
+From Refinery Require Import Lib.Base Model.Collector Proofs.CollectorAbs Proofs.CollectorRef Proofs.CollectorTime Proofs.CollectorLive Proofs.CollectorSys Gen.GenC01.
 
 (* Exactly once / nothing invented.  For every sampler, dry-run setting, config and EVERY history of
    span arrivals, ticks, ejections, reloads and forgotten decisions (forgetting included: no premise
@@ -54,6 +54,17 @@ Theorem C02_system_kept_all_dropped_none :
   end.
 Proof. exact sys_all_or_none. Qed.
 Print Assumptions C02_system_kept_all_dropped_none.
+
+(* Exactly once in the product of workers, for ANY worker count and ANY addressing of the ops (no routing
+   premise at all): with unique (trace, span id) pairs in the whole history, the sequence of spans handed
+   to the transmission by all workers together has no duplicates and contains only accepted spans. *)
+Theorem C02_system_exactly_once_nothing_invented :
+  forall (sampler : N -> list span -> bool) (dry : bool) (n : nat) (c : cfg) (ops : list sop),
+  NoDup (sys_span_keys ops) ->
+  NoDup (map proj (concat (snd (sys_run sampler dry (repeat (winit c) n) ops)))) /\
+  (forall t s, forwarded (snd (sys_run sampler dry (repeat (winit c) n) ops)) t s -> sys_accepted ops t s).
+Proof. exact sys_exactly_once. Qed.
+Print Assumptions C02_system_exactly_once_nothing_invented.
 
 (* Eventually decided.  One tick after every deadline removes min(MaxExpiredTraces', |buffer|)
    traces, so k ticks the code can perform (for any tie-breaking of the queue) at instants at or
